@@ -59,7 +59,9 @@ Proof. exact pol_parses_any_case. Qed.
    try_as_spdc V c = try_as_spdc_steps c whenever the check does not fire. *)
 (* ================================================================================================ round trip *)
 (* the generated setup -> configuration conversion IS the unit table *)
-Theorem C16_as_config_is_unit_table : forall U s, as_config R_ops U s = as_config_spec U s.
+(* (export_rounds_idler_waist_position: whether the code rounds the idler waist position, read off the source; the unit table's
+   only parameter) *)
+Theorem C16_as_config_is_unit_table : forall U s, as_config R_ops U s = as_config_spec export_rounds_idler_waist_position U s.
 Proof. exact as_config_matches_spec. Qed.
 
 (* every exported number is within 0.5e-4 of the physical value in the field's unit; idler, crystal angle and waist
@@ -96,7 +98,7 @@ Proof. exact (fun x => conj (round4_idempotent x) (round4_err x)). Qed.
 Theorem C16_stable : forall U K minpos s, reimportable U s ->
   exists s2, try_as_spdc_steps R_ops U K minpos (as_config R_ops U s) = Ok (s2, []) /\
              as_config R_ops U s2 = as_config R_ops U s.
-Proof. exact stable. Qed.
+Proof. exact (fun U K minpos s => stable U K minpos export_rounds_idler_waist_position s eq_refl). Qed.
 
 (* ================================================================================================ auto = explicit *)
 Theorem C16_auto_is_explicit : forall num (o : NumOps num) U K minpos (c : spdc_cfg num) s nf,
